@@ -23,13 +23,38 @@ int main_replay(){
   return 0;
 }
 '''
+REPLAY_WARM = r'''
+/* every const query is called once from one thread (the cache is built), then two threads call the const queries on the same const grid;
+ * a loaded grid and a grid with a pending refinement.  Compiled with ThreadSanitizer: any further write to the mutable cache is a data race */
+#include <thread>
+int main_replay(){
+  using namespace TasGrid;
+  for (int pending = 0; pending < 2; pending++) {
+    auto g = makeWaveletGrid(2, 1, 2, 1);
+    std::vector<double> pts = g.getNeededPoints(), v(g.getNumNeeded());
+    for (size_t i = 0; i < v.size(); i++) v[i] = std::exp(pts[2*i] - pts[2*i+1]);
+    g.loadNeededValues(v);
+    if (pending) g.setSurplusRefinement(1.E-3, refine_classic);
+    const TasmanianSparseGrid &cg = g;
+    auto work = [&](double x0, int reps){ std::vector<double> x = {x0, 0.1}; for (int k = 0; k < reps; k++){ auto w = cg.getInterpolationWeights(x); auto q = cg.getQuadratureWeights(); auto d = cg.getDifferentiationWeights(x); (void) w; (void) q; (void) d; } };
+    work(0.5, 1);      /* warm-up, single thread */
+    std::thread t1(work, 0.3, 20), t2(work, -0.2, 20);
+    t1.join(); t2.join();
+  }
+  std::printf("both threads finished\n");
+  return 0;
+}
+'''
 def make_replay(prop):
+    rows = replay_rows(prop)
     def rp(job, ob, vals, wd):
+        if "precondition" in ob["name"]:
+            return rows(job, ob, vals, wd)
         hdr = ("Replay against the real library under ThreadSanitizer (exit code 66 = data race reported).\nproperty %s job %s\nobligation %s: %s\nat %s"
                % (prop, job.name, ob["name"], ob["description"], ob["location"]))
         import os
         os.environ["TSAN_OPTIONS"] = "exitcode=1 halt_on_error=1"
-        return RP.write_and_run(prop, job.name + "." + ob["name"], hdr, ['"TasmanianSparseGrid.hpp"'], REPLAY, "  main_replay();", lib="sg",
+        return RP.write_and_run(prop, job.name + "." + ob["name"], hdr, ['"TasmanianSparseGrid.hpp"'], REPLAY_WARM if job.name.endswith(".warm") else REPLAY, "  main_replay();", lib="sg",
                                 flags=["-fsanitize=thread", "-O1"], timeout=300)
     return rp
 
@@ -98,20 +123,67 @@ def static_frame_job(prop):
                assumed=["C++ const-correctness is enforced by the compiler for everything that is not mutable, const_cast or static"],
                label="class-level frame: the only ways a const member function can write (mutable members, const_cast, static data) are all listed")
 
+REPLAY_ROWS = r'''
+/* On the real library: a wavelet grid caches its interpolation matrix at a weights call; the point set then changes without a reload
+ * (setSurplusRefinement -> mergeRefinement -> setHierarchicalCoefficients); the three kinds of weights must still act on the current points. */
+int main_replay(){
+  using namespace TasGrid;
+  int bad = 0;
+  for (int order : {1, 3}) {
+    TasmanianSparseGrid g = makeWaveletGrid(2, 1, 2, order);
+    auto f = [](double a, double b)->double{ return std::exp(-a * a - 0.5 * b) + 0.3 * std::sin(3.0 * a * b); };
+    auto check = [&](const char *stage){
+      int n = g.getNumLoaded(); const double *v = g.getLoadedValues();
+      std::vector<double> q; g.integrate(q);
+      std::vector<double> w = g.getQuadratureWeights(), x = {0.3, -0.45}, y, dy;
+      g.evaluate(x, y); g.differentiate(x, dy);
+      std::vector<double> iw = g.getInterpolationWeights(x), dw = g.getDifferentiationWeights(x);
+      double sq = 0, si = 0, sd0 = 0, sd1 = 0;
+      for (int i = 0; i < n; i++) { sq += w[i] * v[i]; si += iw[i] * v[i]; sd0 += dw[2*i] * v[i]; sd1 += dw[2*i+1] * v[i]; }
+      if (!(std::abs(sq - q[0]) < 1.E-9 && std::abs(si - y[0]) < 1.E-9 && std::abs(sd0 - dy[0]) < 1.E-8 && std::abs(sd1 - dy[1]) < 1.E-8)) {
+        std::printf("order %d, %s (%d points): integrate %.12g vs weights %.12g; evaluate %.12g vs weights %.12g; gradient (%.12g, %.12g) vs weights (%.12g, %.12g)\n", order, stage, n, q[0], sq, y[0], si, dy[0], dy[1], sd0, sd1);
+        bad++; } };
+    { std::vector<double> p = g.getNeededPoints(), v(g.getNumNeeded()); for (size_t i = 0; i < v.size(); i++) v[i] = f(p[2*i], p[2*i+1]); g.loadNeededValues(v); }
+    check("loaded");
+    g.setSurplusRefinement(1.E-3, refine_classic);
+    check("pending refinement");
+    g.mergeRefinement();
+    { int n = g.getNumLoaded(); std::vector<double> c(n); for (int i = 0; i < n; i++) c[i] = 0.5 + std::sin(1.0 + 0.7 * i) / (1.0 + 0.1 * i); g.setHierarchicalCoefficients(c); }
+    check("merged, coefficients set");
+  }
+  __CPROVER_assert(bad == 0, "C04 the wavelet weights (quadrature, interpolation, differentiation) act on the current point set after it changed without a reload");
+  return 0;
+}
+'''
+def replay_rows(prop):
+    def rp(job, ob, vals, wd):
+        hdr = "Replay through the public API of the real library.\nproperty %s job %s\nobligation %s: %s\nat %s" % (prop, job.name, ob["name"], ob["description"], ob["location"])
+        return RP.write_and_run(prop, job.name + "." + ob["name"], hdr, ['"TasmanianSparseGrid.hpp"', '<cmath>'], REPLAY_ROWS, "  main_replay();", lib="sg", timeout=120)
+    return rp
+
+WARM = "__CPROVER_requires(self->inter_matrix.rows == ((self->points_n == 0) ? self->needed_n : self->points_n))"
 def jobs(tier, seed, prop):
+    """C12: the frame of the const queries, (cold) from any cache state -- known finding D5 -- and (warm) once the cache fits the working set.
+    C04: the cache may be written; the linear system solved must be the one of the current working set."""
     cf = ContractFile("contracts/wavelet.c")
-    R = X.Rules()
-    t, info = wavelet.emit(R, cf.contracts())
     npmax = 3 if tier == "quick" else 5
-    pre = '#include "tsg_shim.h"\nint tsg_exc;\n#define TSG_NPMAX %d\n#line 1 "/verif/contracts/wavelet.c"\n' % npmax + cf.text(("text", "stub")) + t
-    out = [static_frame_job(prop)]
+    out = [static_frame_job(prop)] if prop == "C12" else []
     stubs = ["GridWavelet_evalIntegral", "GridWavelet_evalBasis", "GridWavelet_evalDiffBasis", "WaveletBasisMatrix_getNumRows", "WaveletBasisMatrix_invertTransposed", "GridWavelet_buildInterpolationMatrix"]
-    for f in info["functions"]:
-        nm = f["name"].split("::")[1]
-        out.append(Job("wavelet." + nm, pre + cf.text(("harness",), ["h_" + nm]), "h_" + nm, enforce="GridWavelet_" + nm, replace=stubs,
-                       pre_unwindset={r'GridWavelet_%s' % nm: npmax + 2, r'tsg_\w+': npmax + 2}, timeout=300,
-                       functions=["%s:%d %s" % (f["file"], f["line"], f["name"])], info=info, replay=make_replay(prop),
-                       bounded="points <= %d, dimensions <= 2 (loops unwound; the frame obligations do not depend on the sizes)" % npmax,
-                       assumed=["callee contracts (evalIntegral, evalBasis, evalDiffBasis pure; invertTransposed writes its argument only; buildInterpolationMatrix assigns the cached matrix) are assumed, not enforced"],
-                       label="GridWavelet::%s writes only its output array (assigns clause enforced by dfcc)" % nm))
+    variants = [("", "", "")] + [(".warm", WARM, "")] if prop == "C12" else [(".rows", "", ", self->inter_matrix")]
+    for suffix, warm, cache in variants:
+        R = X.Rules()
+        con = {k: v.replace("@WARM@", warm).replace("@CACHE@", cache) for k, v in cf.contracts().items()}
+        t, info = wavelet.emit(R, con)
+        pre = '#include "tsg_shim.h"\nint tsg_exc;\n#define TSG_NPMAX %d\n#line 1 "/verif/contracts/wavelet.c"\n' % npmax + cf.text(("text", "stub")) + t
+        for f in info["functions"]:
+            nm = f["name"].split("::")[1]
+            label = {"": "GridWavelet::%s writes only its output array (assigns clause enforced by dfcc)",
+                     ".warm": "GridWavelet::%s, called when the cached matrix fits the working set, writes only its output array (no rebuild of the cache)",
+                     ".rows": "GridWavelet::%s solves the system of the current working set (the cached matrix has one row per point when it is used)"}[suffix] % nm
+            out.append(Job("wavelet." + nm + suffix, pre + cf.text(("harness",), ["h_" + nm]), "h_" + nm, enforce="GridWavelet_" + nm, replace=stubs,
+                           pre_unwindset={r'GridWavelet_%s' % nm: npmax + 2, r'tsg_\w+': npmax + 2}, timeout=300,
+                           functions=["%s:%d %s" % (f["file"], f["line"], f["name"])], info=info, replay=make_replay(prop) if prop == "C12" else replay_rows(prop),
+                           bounded="points <= %d, dimensions <= 2 (loops unwound; the frame obligations do not depend on the sizes)" % npmax,
+                           assumed=["callee contracts (evalIntegral, evalBasis, evalDiffBasis pure; invertTransposed writes its argument only; buildInterpolationMatrix assigns the cached matrix and makes it fit the working set) are assumed, not enforced"],
+                           label=label))
     return out
